@@ -180,6 +180,9 @@ pub mod update_field;
 /// Serialize a serializable message.
 pub fn serialize<T: AsRawMsg>(m: &T) -> Result<Vec<u8>> {
     let (a, b, c) = m.get_hdr();
+    if b > u32::from(u16::MAX) {
+        return Err(super::Error(format!("message too long: {} bytes", b)));
+    }
     let mut msg = serialize_header(a, b, c);
     m.get_u32s(&mut msg)?;
     m.get_u64s(&mut msg)?;
